@@ -144,9 +144,21 @@ def matlab_case(idx, payload):
     rng, m, text = gen_coherent(seed, idx, cfg_kw, style='space')
     boost = rng.random() < 0.5
     d = fw.worker_driver()
-    a = impl_matlab([text], "mymod", [], boost)
-    b = model_matlab(d, text, "mymod", [], boost)
-    r = dict(idx=idx, text=text, opts=dict(boost=boost), stats=module_stats(m), eq=(a == b), impl=a, model=b if a != b else None)
+    ignore = []
+    if (cfg_kw or {}).get("matlab_ignore"):
+        # ignore-list entries naming namespaced classes / instantiations (a global-scope entry is a listed known finding)
+        keys = []
+        for l in model_call("icpp", text).split("\n"):
+            if l.startswith("C "):
+                f = l.split(" | ")
+                qual = f[1].split("<")[0]
+                if "::" in qual:
+                    keys.append(qual.rsplit("::", 1)[0] + "::" + f[0][2:])
+        if keys:
+            ignore = rng.sample(keys, rng.randint(1, min(2, len(keys))))
+    a = impl_matlab([text], "mymod", ignore, boost)
+    b = model_matlab(d, text, "mymod", ignore, boost)
+    r = dict(idx=idx, text=text, opts=dict(boost=boost, ignore=ignore), stats=module_stats(m), eq=(a == b), impl=a, model=b if a != b else None)
     return r
 
 
